@@ -148,3 +148,104 @@ func verifLemmaListHeadRoundTrip(buf []byte, size uint64) (n int, k Kind, ts, cs
 func verifLemmaUint64RoundTrip(i uint64) (x uint64, rest []byte, err error) {
 	return SplitUint64(AppendUint64(nil, i))
 }
+
+// ---- streaming decoder: the same canonical-form rules, as conditions every accepted value meets
+
+//@ pure func pow256(n int) int { return ite(n <= 0, 1, ite(n == 1, 256, ite(n == 2, 65536, ite(n == 3, 16777216, ite(n == 4, 4294967296, ite(n == 5, 1099511627776, ite(n == 6, 281474976710656, ite(n == 7, 72057594037927936, 18446744073709551616)))))))) }
+
+//@ func (s *Stream) listLimit() (inList bool, limit uint64)
+//@   serves C01
+//@   ensures inList == (len(s.stack) > 0)
+//@   ensures inList ==> limit == s.stack[len(s.stack) - 1]
+
+//@ func (s *Stream) willRead(n uint64) (err error)
+//@   serves C01
+//@   modifies s.kind, s.remaining, s.stack[..]
+//@   ensures len(s.stack) == old(len(s.stack))
+
+//@ func (s *Stream) readByte() (b byte, err error)
+//@   serves C01
+//@   modifies s.kind, s.remaining, s.stack[..]
+//@   mutates
+//@   ensures len(s.stack) == old(len(s.stack))
+
+//@ func (s *Stream) readFull(buf []byte) (err error)
+//@   serves C01
+//@   modifies s.kind, s.remaining, s.stack[..], buf[0:len(buf)]
+//@   mutates
+//@   loop 1 "n < len(buf) && err == nil"
+//@     assume-invariant 0 <= n && n <= len(buf)
+
+// readUint: a multi-byte big-endian number is accepted only without a leading zero byte.
+//@ func (s *Stream) readUint(size byte) (v uint64, err error)
+//@   serves C01
+//@   requires size <= 8
+//@   modifies *s, s.stack[..]
+//@   mutates
+//@   ensures err == nil && size == 2 ==> 256 <= v && v < 65536
+//@   ensures err == nil && size == 3 ==> 65536 <= v && v < 16777216
+//@   ensures err == nil && size == 4 ==> 16777216 <= v && v < 4294967296
+//@   ensures err == nil && size == 5 ==> 4294967296 <= v && v < 1099511627776
+//@   ensures err == nil && size == 6 ==> 1099511627776 <= v && v < 281474976710656
+//@   ensures err == nil && size == 7 ==> 281474976710656 <= v && v < 72057594037927936
+//@   ensures err == nil && size == 8 ==> 72057594037927936 <= v && v < 18446744073709551616
+//@   ensures err == nil && size == 1 ==> v < 256
+//@   ensures err == nil && size == 0 ==> v == 0
+//@   ensures s.stack == old(s.stack)
+
+// readKind: long-form headers are accepted only with a size of at least 56 (and, through
+// readUint, without leading zero bytes); short forms carry the size in the tag.
+//@ func (s *Stream) readKind() (kind Kind, size uint64, err error)
+//@   serves C01
+//@   modifies *s, s.stack[..]
+//@   mutates
+//@   ghostvar tag int = 0
+//@   oncall readByte: tag = result0
+//@   ensures s.stack == old(s.stack)
+//@   ensures err == nil ==> kind == ite(tag < 128, Byte, ite(tag < 192, String, List))
+//@   ensures err == nil && tag < 128 ==> size == 0 && s.byteval == tag
+//@   ensures err == nil && 128 <= tag && tag < 184 ==> size == tag - 128
+//@   ensures err == nil && 184 <= tag && tag < 192 ==> size >= 56 && (tag - 183 >= 2 ==> size >= pow256(tag - 183 - 1))
+//@   ensures err == nil && 192 <= tag && tag < 248 ==> size == tag - 192
+//@   ensures err == nil && 248 <= tag ==> size >= 56 && (tag - 247 >= 2 ==> size >= pow256(tag - 247 - 1))
+
+// Kind reads the next header once and caches it.
+//@ func (s *Stream) Kind() (kind Kind, size uint64, err error)
+//@   serves C01
+//@   modifies *s, s.stack[..]
+//@   mutates
+//@   ensures s.stack == old(s.stack)
+//@   ensures err != EOL ==> kind == s.kind && size == s.size && err == s.kinderr
+
+// Bytes / ReadBytes: a one-byte string below 0x80 (which must be encoded as the byte itself) is rejected.
+//@ func (s *Stream) Bytes() (out []byte, err error)
+//@   serves C01
+//@   modifies *s, s.stack[..]
+//@   mutates
+//@   ghostvar k int = 0
+//@   oncall Kind: k = result0
+//@   ensures err == nil && k == String && len(out) == 1 ==> out[0] >= 128
+//@   ensures err == nil ==> k == Byte || k == String
+
+//@ func (s *Stream) ReadBytes(b []byte) (err error)
+//@   serves C01
+//@   modifies *s, s.stack[..], b[..]
+//@   mutates
+//@   ghostvar k int = 0
+//@   oncall Kind: k = result0
+//@   ensures err == nil && k == String && len(b) == 1 ==> b[0] >= 128
+//@   ensures err == nil ==> k == Byte || k == String
+
+// uint: integers are accepted only in their shortest form: no leading zero byte, a single byte
+// below 0x80 never as a string, zero never as the byte 0x00.
+//@ func (s *Stream) uint(maxbits int) (v uint64, err error)
+//@   serves C01
+//@   requires 0 <= maxbits && maxbits <= 64
+//@   modifies *s, s.stack[..]
+//@   mutates
+//@   ghostvar k int = 0
+//@   ghostvar sz int = 0
+//@   oncall Kind: k = result0; sz = result1
+//@   ensures err == nil && k == Byte ==> v != 0 && v == s.byteval
+//@   ensures err == nil && k == String ==> sz <= maxbits / 8 && (sz >= 1 ==> v >= 128) && (sz >= 2 ==> v >= pow256(sz - 1)) && (sz == 0 ==> v == 0)
+//@   ensures err == nil ==> k == Byte || k == String
